@@ -185,16 +185,19 @@ def truncateTo (fs : Files) (file off hi : Nat) : Files :=
   let f := (fileAt kept file).getD []
   setFile kept file (some ((f ++ List.replicate (off - f.length) 0).take off))
 
+/-- the block file `writeBlock` directs a block to (the current one, or the next after a rollover) -/
+def rollTarget (s : Store) (d : Bytes) : Nat :=
+  let fullLen := u32 (u32 d.length + 12)
+  let final := u32 (s.curOff + fullLen)
+  if final < s.curOff ∨ final > s.max then u32 (s.curFile + 1) else s.curFile
+
 /-- the loop of `writePendingAndCommit` when every write to block file `n` fails (the harness
     makes that file a link to `/dev/full`): `true` = a block was directed to file `n`,
     `writeBlock` returned the I/O error -/
 def blocksUntil (crc : Bytes → Nat) (n : Nat) (s : Store) : List (Bytes × Bytes) → Store × Bool
   | [] => (s, false)
   | (h, d) :: rest =>
-    let fullLen := u32 (u32 d.length + 12)
-    let final := u32 (s.curOff + fullLen)
-    let target := if final < s.curOff ∨ final > s.max then u32 (s.curFile + 1) else s.curFile
-    if target = n then (s, true)
+    if rollTarget s d = n then (s, true)
     else
       let (s', loc) := writeBlock crc s d
       blocksUntil crc n { s' with index := (h, loc) :: s'.index } rest
